@@ -6,12 +6,13 @@ import Percival.Model.NetbufWrite
 # Start, registration and teardown paths of the upper layers under an allocation oracle (C14)
 
 `network/network_read.c`, `network_write.c`, `network_accept.c`, `network_connect.c`,
-`netbuf/netbuf_read.c`, `netbuf_write.c` and the set-up ladder of `http/http.c`, as far as memory and
-registrations are concerned: **every allocation site of the C is one consultation of the oracle, in the
+`netbuf/netbuf_read.c`, `netbuf_write.c` and the set-up ladders of `http/http.c` (`http_request` and — through
+`http/https.c` — `https_request`, both via `http_request2`), as far as memory and registrations are concerned: **every allocation site of the C is one consultation of the oracle, in the
 C's order, and every `goto err…` rung is spelled out**.  What the kernel does with the descriptors is
 not modelled here (that is C06/C07: `Model/NetIO`, `Model/Connect`, `Model/NetbufRead`,
 `Model/NetbufWrite`, whose size policies and address outcomes are reused); no event-loop pass happens
-between the calls modelled here, so a request stays outstanding until it is cancelled.
+between the calls modelled here, so a request stays outstanding until it is cancelled (in particular an HTTPS
+request never gets as far as `network_ssl_open`: the TLS layer, `network_ssl/*` and `netbuf_ssl.c`, is not modelled).
 
 The oracle is `Mem` (C12/C14): `f n sz` says whether the `n`-th request, of `sz` bytes, is granted; the
 event layer underneath is `Model/EvReg` unchanged (its pools, socket list, pollfd array and timer queue
@@ -48,6 +49,7 @@ inductive Site where
   | nbwBuf        -- netbuf_write.c   `malloc(WB->buflen)`
   | httpCookie    -- http.c           `malloc(sizeof(struct http_cookie))`
   | httpHead      -- http.c           `malloc(H->req_headlen + 1)`
+  | httpsHost     -- https.c          `strdup(hostname)`
   | rdStack       -- mpool.h          the read-cookie pool's grown stack array
   | wrStack       -- mpool.h          the write-cookie pool's grown stack array
   deriving DecidableEq, Repr
@@ -118,6 +120,7 @@ structure Http where
   cookie : Nat
   head : Nat               -- `H->req_head`
   conn : Option Nat        -- `H->connect_cookie`
+  host : Option Nat := none  -- `H->sslhost`: the string `https_request` duplicated (`none` is NULL = plain HTTP)
   deriving DecidableEq, Repr
 
 structure World where
@@ -580,10 +583,18 @@ def netbufWriteFree (w : World) (wid : Nat) : Option World :=
       let w2 := release (releaseBufs w1 x.queue) x.id
       some { w2 with writers := w2.writers.filter (·.id != wid) }
 
-/-! ## http.c: the set-up ladder of `http_request` and `http_request_cancel` while connecting -/
+/-! ## http.c / https.c: the set-up ladder of `http_request2`, its two callers, and `http_request_cancel`
+while connecting -/
 
-/-- `http_request(addrs, request, maxrlen, callback, cookie)`; `headlen` is `H->req_headlen` -/
-def httpRequest (w : World) (addrs : List AddrOutcome) (headlen s : Nat) : Option Nat × World :=
+/-- `http_request2(addrs, request, maxrlen, callback, cookie, sslhost)`; `headlen` is `H->req_headlen`,
+`sslhost` the block of the caller's duplicated host name (`none` is NULL).
+
+**Ownership of `sslhost`**: the pointer is stored in the cookie, and the cookie — hence, from the moment
+`http_request2` *returns it*, `http_request_cancel` — owns the string.  On every failure path the ladder
+frees only what `http_request2` allocated itself (`err2: free(H->req_head); err1: free(H);`): the string
+still belongs to the caller, which frees it (https.c `err1: free(sslhost)`).  A ladder that released it
+as well would make the caller's `free` the second one: `release` of a block that is not live counts in `bad`. -/
+def httpRequest2 (w : World) (addrs : List AddrOutcome) (headlen s : Nat) (sslhost : Option Nat) : Option Nat × World :=
   -- Bake a cookie.
   match alloc w .httpCookie httpCookieSize with
   | (none, w1) => (none, w1)                                                        -- err0
@@ -592,7 +603,7 @@ def httpRequest (w : World) (addrs : List AddrOutcome) (headlen s : Nat) : Optio
     match alloc w1 .httpHead (headlen + 1) with
     | (none, w2) => (none, release w2 h)                                            -- err1: free(H)
     | (some hd, w2) =>
-      let w2 := { w2 with https := ⟨h, hd, none⟩ :: w2.https }
+      let w2 := { w2 with https := ⟨h, hd, none, sslhost⟩ :: w2.https }
       -- Connect to the target host.
       match networkConnect w2 addrs none s with
       | (some c, w3) =>
@@ -601,8 +612,25 @@ def httpRequest (w : World) (addrs : List AddrOutcome) (headlen s : Nat) : Optio
         let w4 := release (release w3 hd) h
         (none, { w4 with https := w4.https.filter (·.cookie != h) })
 
-/-- `http_request_cancel(cookie)` of a request that is still connecting (`W`, `R`, `ssl`, `sslhost`,
-`res_head`, `res.headers`, `res.body` are NULL; `s == -1`) -/
+/-- `http_request(addrs, request, maxrlen, callback, cookie)` = `http_request2(…, NULL)` -/
+def httpRequest (w : World) (addrs : List AddrOutcome) (headlen s : Nat) : Option Nat × World :=
+  httpRequest2 w addrs headlen s none
+
+/-- `https_request(addrs, request, maxrlen, callback, cookie, hostname)` (http/https.c); `hostlen` is
+`strlen(hostname)`.  (Setting the four `network_ssl` / `netbuf_ssl` function pointers allocates nothing.) -/
+def httpsRequest (w : World) (addrs : List AddrOutcome) (headlen s hostlen : Nat) : Option Nat × World :=
+  -- Duplicate the hostname.
+  match alloc w .httpsHost (hostlen + 1) with
+  | (none, w1) => (none, w1)                                                        -- err0
+  | (some sh, w1) =>
+    -- Create an HTTP state.
+    match httpRequest2 w1 addrs headlen s (some sh) with
+    | (some h, w2) => (some h, w2)
+    | (none, w2) => (none, release w2 sh)                                           -- err1: free(sslhost)
+
+/-- `http_request_cancel(cookie)` of a request that is still connecting (`W`, `R`, `ssl`, `res_head`,
+`res.headers`, `res.body` are NULL; `s == -1`); `free(H->sslhost)` releases the duplicated host name of an
+HTTPS request (`free(NULL)` otherwise) -/
 def httpRequestCancel (w : World) (h : Nat) : Option World :=
   match w.https.find? (·.cookie == h) with
   | none => none
@@ -613,6 +641,10 @@ def httpRequestCancel (w : World) (h : Nat) : Option World :=
            | none => some w) with
     | none => none
     | some w1 =>
+      -- Free duplicated SSL target hostname if we have one.
+      let w1 := match x.host with
+        | some sh => release w1 sh
+        | none => w1
       let w2 := release (release w1 x.head) x.cookie
       some { w2 with https := w2.https.filter (·.cookie != h) }
 
@@ -642,6 +674,7 @@ inductive Op where
   | nbrInit (fd : Nat) | nbrWait (r len : Nat) | nbrCancel (r : Nat) | nbrFree (r : Nat)
   | nbwInit (fd : Nat) | nbwReserve (x len : Nat) | nbwConsume (x len : Nat) | nbwWrite (x len : Nat) | nbwFree (x : Nat)
   | http (addrs : List AddrOutcome) (headlen s : Nat) | httpCancel (h : Nat)
+  | https (addrs : List AddrOutcome) (headlen s hostlen : Nat)
   deriving Repr
 
 /-- is this read cookie the one a buffered reader is waiting on (then only the reader may cancel it)? -/
@@ -676,6 +709,7 @@ def step (w : World) : Op → World
   | .nbwFree x => orSame w (netbufWriteFree w x)
   | .http addrs headlen s => (httpRequest w addrs headlen s).2
   | .httpCancel h => orSame w (httpRequestCancel w h)
+  | .https addrs headlen s hostlen => (httpsRequest w addrs headlen s hostlen).2
 
 /-- one call and its outcome; `.contract`: the call is outside the usage contract and is not made -/
 def stepR (w : World) : Op → Rc × World
@@ -701,6 +735,8 @@ def stepR (w : World) : Op → Rc × World
   | .nbwFree x => match netbufWriteFree w x with | some w' => (.ok, w') | none => (.contract, w)
   | .http addrs headlen s => match httpRequest w addrs headlen s with | (some _, w') => (.ok, w') | (none, w') => (.fail, w')
   | .httpCancel h => match httpRequestCancel w h with | some w' => (.ok, w') | none => (.contract, w)
+  | .https addrs headlen s hostlen =>
+    match httpsRequest w addrs headlen s hostlen with | (some _, w') => (.ok, w') | (none, w') => (.fail, w')
 
 def run (w : World) (ops : List Op) : World := ops.foldl step w
 
